@@ -2,9 +2,10 @@
 (* Process-level outcomes of the command-line tools for inputs that have no AST (C10: invalid
    source must be rejected the way a failing program is): a rejection is a normal exit with
    non-zero status, nothing on stdout, a diagnostic on stderr.  Death by signal matches nothing.
-   Input (env OBS): ndjson of [id, rule, exit, signaled, outlen, errempty]; one verdict each.
+   Input (env OBS): ndjson of [id, rule, exit, signaled, outlen, errempty, out, known, expok, expout]; one verdict each.
    rule = "reject": the input is invalid source; rule = "clean": a program too large to run through the
-   reference semantics in TLC (call depth 10^5, 10^3-link structures): only the termination rules are judged. *)
+   reference semantics in TLC (call depth 10^5, 10^3-link structures): the termination rules are judged, and - where the
+   program was written with its outcome known (known = TRUE: success or failure expok, stdout expout) - that outcome. *)
 EXTENDS Integers, Sequences, TLC, Json, IOUtils
 VARIABLES t
 ASSUME TLCSet(1, ndJsonDeserialize(IOEnv.OBS))
@@ -14,5 +15,6 @@ CleanRejection(o) == ~o.signaled /\ o.exit # 0 /\ o.exit < 128 /\ o.outlen = 0 /
 CleanTermination(o) == ~o.signaled /\ o.exit < 128 /\ ((o.exit = 0) <=> o.errempty)
 Init == t \in 1..Len(Obs)
 Next == FALSE /\ UNCHANGED t
-Report == PrintT(<<"VERDICT", ToJson([id |-> Obs[t].id, ok |-> IF Obs[t].rule = "reject" THEN CleanRejection(Obs[t]) ELSE CleanTermination(Obs[t])])>>)
+Prescribed(o) == o.known => (((o.exit = 0) = o.expok) /\ o.out = o.expout)
+Report == PrintT(<<"VERDICT", ToJson([id |-> Obs[t].id, ok |-> IF Obs[t].rule = "reject" THEN CleanRejection(Obs[t]) ELSE CleanTermination(Obs[t]) /\ Prescribed(Obs[t])])>>)
 =============================================================================
